@@ -547,7 +547,7 @@ class EZSP:
         # Override the defaults with user-specified values (or `None` for deletions)
         for name, value in config.items():
             if value is None:
-                ezsp_config.pop(name)
+                ezsp_config.pop(name, None)
                 continue
 
             ezsp_config[name] = RuntimeConfig(
